@@ -24,6 +24,10 @@ Record extra := mkExtra { x_byext : list (string * ob); x_must : list (string * 
                           x_depr : list (string * ob);
                           x_props : list (string * string * option string * option string)
                                     (* key, value as written, GetString without / with UseEnv *);
+                          x_retained : bool
+                                    (* the bytes RETURNED by YamlToJson / TomlToJson were still intact after the later conversions *);
+                          x_inter : list (ob * ob)
+                                    (* LoadFromYaml/TomlBytes as it is, and with a complete other load between its two steps *);
                           x_info : option (option finfo);
                           x_lc : option jv; x_lc2 : option jv }.
 
@@ -167,6 +171,11 @@ Definition agrees (c : case) : bool :=
                                 | Some e => ostr_eqb on (Some (expand_str e raw))
                                 | None => true
                                 end) (x_props x)
+           && match x_inter x with
+              | [py; pt] => ob_eqb (fst py) (oy (model3 T d)) && ob_eqb (fst pt) (ot (model3 T d))
+              | [] => true
+              | _ => false
+              end
            && opt_all (x_info x) (fun i => oinfo_eqb i (info_fields T fi_empty))
            && lc_agrees (info_fields T fi_empty) d (x_lc x)
            && match d2 with Some d' => lc_agrees (info_fields T fi_empty) d' (x_lc2 x) | None => true end)
@@ -243,6 +252,10 @@ Definition prop_gen (same3 : ob3 -> bool) (c : case) : bool :=
            (* Load(.., UseEnv()) = expanding the file's text, then loading it *)
            && match envon, x_envref x with Some l, Some r => ob3_eqb l r | _, _ => true end
            && match envon, x_envmust x with Some l, Some r => ob3_eqb l r | _, _ => true end
+           (* what a loader or converter returned belongs to the caller: a later (or concurrent) load must
+              neither write into returned bytes nor change the outcome of a load that is between its steps *)
+           && x_retained x
+           && forallb (fun p => negb (ob_panics (snd p)) && ob_eqb (fst p) (snd p)) (x_inter x)
            (* the deprecated wrappers behave like the functions they wrap *)
            && forallb (fun er =>
                          ob_eqb (snd er)
